@@ -20,8 +20,10 @@ PROPS = "Props/C08"
 FAMILY = "total"
 F1_SIG = "C08:F1:reader-diverges-external-mask-recursion"
 F1B_SIG = "C08:F1:reader-diverges-unmasked-recursion"
+F1J_SIG = "C08:F1:json-or-tl2-reader-diverges-on-unranked-schema"
 AMP_SIG = "C08:F18:total-allocation-superlinear-zero-size-elements"
 F19_SIG = "C08:F19:json-reader-allocates-tuple-by-nat-member"
+F20_SIG = "C08:F20:json-default-fill-diverges-external-mask-recursion"
 DRIVER_FILES = ["main.go", "ops_tl1.go", "ops_total.go"]
 
 F1_SCHEMA = """
@@ -32,13 +34,19 @@ rec.b m:# v:(rec.a m) = rec.B;
 F1U_SCHEMA = """
 rec.c x:%rec.c y:int = rec.C;
 """
+# total for TL1 (value:int is read before every recursion) but not for JSON: an absent member is filled with
+# defaults by recursion that consumes nothing and keeps the external mask
+JD_SCHEMA = """
+jd.tree {m:#} value:int left:m.0?(jd.tree m) right:m.1?(jd.tree m) = jd.Tree m;
+jd.top m:# t:(jd.tree m) = jd.Top;
+"""
 # elements that occupy zero bytes on the wire (all fields masked out) inside nested sequences
 AMP_SCHEMA = """
 amp.e {n:#} x:n.0?long y:n.1?long = amp.E n;
 amp.w n:# v:(vector (vector (amp.e n))) = amp.W;
 """
 
-A0 = 4096          # constant part of a read's allocation (error values, top-level boxes)
+A0 = 16384         # constant part of a read's allocation (error values, top-level boxes)
 CSLACK = 4         # slack factor of the per-call bound
 
 
@@ -99,12 +107,12 @@ def run(ctx):
     if not berr:
         corpus = [c for c in repo_corpus(quick) if c[4] and not (quick and c[0] == 'goldmaster')]
         vrng = random.Random(ctx.rng.getrandbits(64))
-        specs = corpus + [fixed_unit(ctx, "f1", F1_SCHEMA), fixed_unit(ctx, "f1u", F1U_SCHEMA), fixed_unit(ctx, "amp", AMP_SCHEMA)] + \
+        specs = corpus + [fixed_unit(ctx, "f1", F1_SCHEMA), fixed_unit(ctx, "f1u", F1U_SCHEMA), fixed_unit(ctx, "amp", AMP_SCHEMA), fixed_unit(ctx, "jd", JD_SCHEMA)] + \
             [fixed_unit(ctx, f"fv{i}", tlb.f1_variant(vrng)) for i in range(2 if quick else 12)] + sane_specs(ctx, 6 if quick else 40)
         units = prepare_units(ctx, specs, bins, driver_files=DRIVER_FILES)
     log('[C08] units ready', round(time.time() - ctx.t0))
-    nvals = 3 if quick else 20
-    nmut = 4 if quick else 20
+    nvals = 3 if quick else 12
+    nmut = 4 if quick else 12
     stats = {"schemas": 0, "types": 0, "tl1_reads": 0, "valid": 0, "mutated": 0, "hostile_count": 0, "truncated": 0, "deep": 0, "random": 0,
              "tl2_reads": 0, "json_reads": 0, "transcodes": 0, "kernel_rejected": 0, "not_built_c14": 0, "ranked_units": 0, "unranked_units": 0,
              "unranked_no_divergence_found": 0, "diverging_inputs": 0, "max_rank": 0, "max_fuel_used": 0, "max_depth_input": 0}
@@ -115,7 +123,7 @@ def run(ctx):
 
     def work(u):
         rng = rngs[u.name]
-        is_repo = not (u.name.startswith(("rs", "fv")) or u.name in ("f1", "f1u", "amp"))
+        is_repo = not (u.name.startswith(("rs", "fv")) or u.name in ("f1", "f1u", "amp", "jd"))
         if u.kernel_rejected and not is_repo:
             with lock:
                 stats["kernel_rejected"] += 1
@@ -284,6 +292,7 @@ def run(ctx):
             ust["max_fuel_used"] = int(mo[-1][3:])
         mo = mo[1:-1]
         amp_obs = {}
+        suspects = []
         for (l, kind, name), m, g in zip(ops, mo, go):
             gv, alloc, mallocs = split_go(g)
             vd(kind, gv.split(" ")[0])
@@ -306,12 +315,19 @@ def run(ctx):
                 with lock:
                     ratio["max_alloc_per_call_bound"] = max(ratio["max_alloc_per_call_bound"], round(alloc / (A0 + (mallocs + 1) * unit), 4))
                     if kind != "amplification":
-                        ratio["max_alloc_per_input_byte_x_elemsize"] = max(ratio["max_alloc_per_input_byte_x_elemsize"], round(alloc / (S * (L + 1)), 3))
+                        ratio["max_alloc_per_input_byte_x_elemsize"] = max(ratio["max_alloc_per_input_byte_x_elemsize"], round(max(alloc - A0, 0) / (S * (L + 1)), 3))
                     ratio["max_alloc_bytes"] = max(ratio["max_alloc_bytes"], alloc)
                 if alloc > bound:
-                    ubad.append((u.name, l, g, f"C08:allocation-out-of-proportion:{u.name}:{name}", False))
+                    suspects.append((l, name, L, S))
                 if kind == "amplification":
                     amp_obs[L] = (alloc, S, gv)
+        # allocation above the per-call bound: judged on a repetition in a fresh, warmed-up process
+        # (the first calls of a process pay one-time runtime / fmt initialisation)
+        for l, name, L, S in suspects[:50]:
+            g2 = run_lines_resilient(u.gen.exe, [], [l, l, l], timeout=120, mem_gb=2)
+            gv, alloc, mallocs = split_go(g2[-1])
+            if alloc is None or alloc > A0 + CSLACK * (mallocs + 1) * (S * (L // 4 + 1) + L + 64):
+                ubad.append((u.name, l, g2[-1], f"C08:allocation-out-of-proportion:{u.name}:{name}", False))
         if len(amp_obs) == 2:
             (L1, (a1, S, v1)), (L2, (a2, _, v2)) = sorted(amp_obs.items())
             with lock:
@@ -324,6 +340,8 @@ def run(ctx):
         # ---- (3) TL2 / JSON readers and transcoders: Go-only totality oracle
         sup = []   # (line, kind)
         dyn = {name: tlb.has_dyn_tuple(u.ins, tid) for tid, name, x in tops}
+        cyc_nodes = tlb.ext_cycle_nodes(u.ins)
+        extc = {name: tlb.reaches(u.ins, tid, cyc_nodes) for tid, name, x in tops} if cyc_nodes else {}
         pick = seeds if len(seeds) <= (40 if quick else 400) else rng.sample(seeds, 40 if quick else 400)
         wl = [f"wj8 {n} {bx} {b.hex() or '-'}" for n, bx, b in pick] + [f"w28 {n} {bx} {b.hex() or '-'}" for n, bx, b in pick]
         wo = run_lines_resilient(u.gen.exe, [], wl, timeout=300, mem_gb=2) if wl else []
@@ -341,6 +359,13 @@ def run(ctx):
                     sup.append((f"rd2t {n} {mutate_bytes(rng, t2, tags).hex() or '-'}", "tl2_mutated"))
                 for m in tlb.hostile_words(rng, t2, max_pos=3)[:6] + [bytes([x]) + t2[1:] for x in (0xfe, 0xff, 0x80) if t2]:
                     sup.append((f"rd2t {n} {m.hex() or '-'}", "tl2_hostile_size"))
+        if dyn.get("cases.testInplaceStructArgs"):
+            # fixed probe of F19: 48 bytes of JSON, three # members that size tuples
+            sup.append(("rdjt cases.testInplaceStructArgs " + b'{"a1":4294967295,"a2":4294967295,"a3":4294967295}'.hex(), "json_hostile"))
+        if "jd.top" in dyn:
+            # fixed probe of F20
+            for txt in (b'{"m":3}', b'{"m":1,"t":{"value":5}}', b'{"m":0}', b'{"m":3,"t":{"value":1,"left":{"value":2,"left":{"value":3}}}}'):
+                sup.append(("rdjt jd.top " + txt.hex(), "json_hostile"))
         # function-result transcoders
         freq = [(n, b) for n, bx, b in seeds if n in funs and bx == "0"]
         if len(freq) > (6 if quick else 60):
@@ -380,7 +405,14 @@ def run(ctx):
             ust["json_reads" if op == "rdjt" else "tl2_reads" if op == "rd2t" else "transcodes"] += 1
             if v in ("panic", "crash") or gv.startswith("driver-error"):
                 fam = {"rdjt": "json", "rd2t": "tl2", "trt": "transcoder"}[op]
-                if op == "rdjt" and gv.startswith("crash oom") and dyn.get(l.split(" ")[1]):
+                if not ranked_ok and ust["diverging_inputs"] and gv.startswith("crash") and ("stack" in gv or "goroutine" in gv):
+                    # the default-filling / TL2 reader of an unranked schema recurses like the TL1 reader does
+                    ubad.append((u.name, l, g, F1J_SIG, False))
+                elif op in ("rdjt", "trt") and gv.startswith("crash") and ("stack" in gv or "goroutine" in gv) and extc.get(l.split(" ")[1]):
+                    # default filling of an absent JSON member recursing through external-mask fields (the TL1 reader of the
+                    # same schema may well be total: the unit can be ranked)
+                    ubad.append((u.name, l + "   (JSON: " + trunc(bytes.fromhex(l.split(" ")[-1]).decode("latin1"), 200) + ")", g, F20_SIG, False))
+                elif op == "rdjt" and gv.startswith("crash oom") and dyn.get(l.split(" ")[1]):
                     # tuple size taken from a # member of the JSON text, allocated before any element is seen
                     ubad.append((u.name, l + "   (JSON: " + trunc(bytes.fromhex(l.split(" ")[2]).decode("latin1"), 300) + ")", g, F19_SIG, False))
                 else:
@@ -423,7 +455,7 @@ def run(ctx):
             except OSError:
                 pass
     for name, l, g, sig, no_input in bad:
-        if sig in seen and sig in (F1_SIG, F1B_SIG, AMP_SIG, F19_SIG):
+        if sig in seen and sig in (F1_SIG, F1B_SIG, F1J_SIG, AMP_SIG, F19_SIG, F20_SIG):
             continue
         seen.add(sig)
         if len(ctx.violations) < 40:
